@@ -7,7 +7,7 @@ from plogio import *
 RULE = ("validated models (depth 0-3, all connectives, integer leaves, sharing) x assumption dictionaries over any subset of "
         "leaf and sub-proposition ids (ints, tuples, Bounds, sub-ranges) x total interpretations of the remaining leaves (and of "
         "range-assumed leaves, inside the assumed range); assume(d1).evaluate(d2) vs evaluate({**d2, **d1}) on fresh objects; "
-        "non-trivial = d1 names a sub-proposition id or assume() derives a constant for a node d1 does not fix; distinct by (model, d1, d2)")
+        "additionally on ONE object with ONE dictionary object that grows in place between the calls (leaf-only d1); non-trivial = d1 names a sub-proposition id or assume() derives a constant for a node d1 does not fix; distinct by (model, d1, d2)")
 
 def split_interp(m, rng):
     d1 = rand_interp(m, rng, p_leaf=rng.choice([0.2, 0.5, 0.8]), p_comp=rng.choice([0, 0.15, 0.3]), point=0.75)
@@ -29,6 +29,23 @@ def oracle_case(res, ast, d1, d2, rng):
     if lhs != rhs:
         return {"op": "assume-evaluate", "model": ast_json(ast), "d1": {k: list(v) for k, v in d1.items()}, "d2": {k: list(v) for k, v in d2.items()},
                 "problem": f"assume(d1).evaluate(d2) = {lhs} but evaluate(d1 ∪ d2) = {rhs}"}
+    return None
+
+def grown_case(res, ast, d1, d2):
+    """one model object, ONE dictionary object: assume(sel), then sel grows in place to d1 ∪ d2 and is handed to the same
+    object again - evaluate(sel) and assume(sel) must look at what the dictionary holds now"""
+    res.evaluations += 1
+    obj = build(ast)
+    sel = {k: tuple(v) for k, v in d1.items()}
+    obj.assume(sel)
+    sel.update({k: tuple(v) for k, v in d2.items()})
+    lhs = obj.evaluate(sel).as_tuple()
+    again = obj.assume(sel)
+    lhs2 = again.bounds.as_tuple() if is_var(again) else again.evaluate({}).as_tuple()
+    rhs = build(ast).evaluate({**{k: tuple(v) for k, v in d2.items()}, **{k: tuple(v) for k, v in d1.items()}}).as_tuple()
+    if lhs != rhs or lhs2 != rhs:
+        return {"op": "grown-dict", "model": ast_json(ast), "d1": {k: list(v) for k, v in d1.items()}, "d2": {k: list(v) for k, v in d2.items()},
+                "problem": f"after assume(sel) and sel.update(d2) on the same object: evaluate(sel) = {lhs}, assume(sel) gives {lhs2}, a fresh object evaluates d1 ∪ d2 to {rhs}"}
     return None
 
 def run(res, tier, seed):
@@ -55,6 +72,11 @@ def run(res, tier, seed):
             bad = oracle_case(res, ast, d1, d2, rng)
             if bad:
                 res.violation("oracle", bad["problem"] + f" on {m!r} d1={d1} d2={d2}", bad)
+            if d1 and d2 and not names_comp:
+                res.count("grown_dictionary_history")
+                bad = grown_case(res, ast, d1, d2)
+                if bad:
+                    res.violation("oracle", bad["problem"] + f" on {m!r} d1={d1} d2={d2}", bad)
             cases.append((lambda it, fresh=fresh, d1=d1, assumed=assumed: f"({dict_term(d1, it)}, {dump(fresh, it)}, {dump(assumed, it)})", (ast, d1, d2)))
             res.sample({"model": repr(m), "d1": {k: list(v) for k, v in d1.items()}, "d2": {k: list(v) for k, v in d2.items()}, "assumed": repr(assumed)})
     n, failing, errs = run_case_shards("C07", "assume", "", "interp * prop * prop", "check_assume", cases)
@@ -77,6 +99,6 @@ def replay(payload):
     r = payload.get("replay", payload)
     class R: evaluations = 0
     d1 = {k: tuple(v) for k, v in r["d1"].items()}; d2 = {k: tuple(v) for k, v in r.get("d2", {}).items()}
-    bad = oracle_case(R, r["model"], d1, d2, random.Random(0))
+    bad = grown_case(R, r["model"], d1, d2) if r.get("op") == "grown-dict" else oracle_case(R, r["model"], d1, d2, random.Random(0))
     print("model", build(r["model"]), "d1", d1, "d2", d2, "->", "FAILS: " + bad["problem"] if bad else "holds")
     return 1 if bad else 0
